@@ -36,6 +36,16 @@ func (b *Builder) Node(obj, id string, typ el.NodeType, s Script) *Builder {
 	return b
 }
 
+// CloseFails makes the Close of object obj report an error.
+func (b *Builder) CloseFails(obj string) *Builder {
+	for i := range b.sc.Nodes {
+		if b.sc.Nodes[i].Obj == obj {
+			b.sc.Nodes[i].CloseFails = true
+		}
+	}
+	return b
+}
+
 // Pipe registers (or overwrites) pipeline typ/id with the given node ids.
 func (b *Builder) Pipe(typ, id string, ids ...string) *Builder {
 	b.sc.History = append(b.sc.History, HistOp{Op: "pipe", ID: id, Type: typ, Nodes: ids})
